@@ -42,6 +42,8 @@ import (
 //       through dag-cbor and dag-json into a fresh value gives the normalised value up to ordered-map key order; a typed value
 //       built into the Go type reads back exactly as assembled, or is refused exactly when an integer does not fit;
 //   (D) `gobind.view` / `gobind.assign` of the Lean model (Model/GoBind.lean) answer what the implementation does, case by case.
+//   The Go types cover every slot shape verifyCompatibility accepts and the node code serves (core.UserBindEngine.AllSlotShapes):
+//   pointers for optional / nullable, ONE pointer on a slot that is not nullable, bare nilable types for optional / nullable fields.
 
 func init() {
 	core.Register(&core.Check{ID: "C19", Run: runC19, Replay: replayC19})
@@ -206,10 +208,10 @@ func stripAbsent(v core.Val) core.Val {
 }
 
 func runC19(c *core.Ctx) error {
-	c.Rule = "(a) random values of a catalogue struct covering bool / int64 / int8 / uint8 / uint64 / float64 / string / []byte fields, a slice, optional and nullable pointers, a nested tuple struct, an ordered-map struct, a keyed-union struct and a link; Wrap, build+Unwrap, Marshal/Unmarshal through dag-cbor and dag-json; integers at and beyond each field's width; histories of repeated and interleaved Wrap/Prototype calls with explicit and with inferred schemas (four inferable Go types sharing member types) against the registry model; non-trivial = value with a non-empty list or ordered map; distinct by value.  (b) random schemas (core.GenSchema, plus integer-heavy structs), for each a random compatible Go type built with reflect (every integer kind int8…int64/int/uint8…uint64/uint for Int and for int-represented enums, string for enums, cid.Cid / cidlink.Link / datamodel.Link, datamodel.Node, slices, pointers for optional / nullable / both, ordered-map structs, union structs), three random Go values of it by reflection (nil and non-nil pointers, nil / empty / non-empty slices, random key orders, boundary integers of each width, unsigned values above MaxInt64), two random typed values built into it (integers beyond the widths, struct fields in random order), one non-inhabitant in every fourth type; non-trivial = more than three nodes; distinct by case line"
-	c.Explanation = "theorems on the binding model: width_guard (an integer is stored iff it fits the field's width — the ideal; the code's wrap-around is the named deviation with its witness), binding_pure / binding_pure_history for every history of explicit and inferred bindings (the memoising registry), binding_inferred_twice_was_a_panic; on the Wrap/Unwrap model (Model/GoBind.lean, tied to the implementation by `gobind.view` / `gobind.assign` / `gobind.wt` / `gobind.compatible` on every case): view_assign (wrap of what was built shows exactly the normal form of what was assembled), unwrap_well_typed, assign_view (Unwrap∘build of a wrapped value's content is the value up to GoVal.norm), view_total, view_conforms / view_normal, assign_refuses_iff (refused iff not conforming or an integer - an enum member's representation int included - does not fit), marshal_unmarshal (composition with C08 ofRepr_repr_partial), all at full strength under t.wf and compatible only (each shown to be needed: view_assign_needs_wf, assign_refuses_iff_needs_wf, assign_refuses_iff_needs_compatible); the repaired deviations as theorems of the repaired behaviour (enum_300_into_int8_is_refused, uint_above_int64_reads_back)"
+	c.Rule = "(a) random values of a catalogue struct covering bool / int64 / int8 / uint8 / uint64 / float64 / string / []byte fields, a slice, optional and nullable pointers, a nested tuple struct, an ordered-map struct, a keyed-union struct and a link; Wrap, build+Unwrap, Marshal/Unmarshal through dag-cbor and dag-json; integers at and beyond each field's width; histories of repeated and interleaved Wrap/Prototype calls with explicit and with inferred schemas (four inferable Go types sharing member types) against the registry model; non-trivial = value with a non-empty list or ordered map; distinct by value.  (b) random schemas (core.GenSchema, plus integer-heavy structs), for each a random compatible Go type built with reflect (every integer kind int8…int64/int/uint8…uint64/uint for Int and for int-represented enums, string for enums, cid.Cid / cidlink.Link / datamodel.Link, datamodel.Node, slices, pointers for optional / nullable / both, ordered-map structs, union structs; and the other slot shapes verifyCompatibility accepts and the node code serves: ONE pointer on a required non-nullable struct field / list element / map value / value behind an optional field's or union member's pointer, and bare nilable Go types - slice, []byte, datamodel.Link, datamodel.Node - for optional or nullable struct fields), three random Go values of it by reflection (nil and non-nil pointers, nil / empty / non-empty slices, random key orders, boundary integers of each width, unsigned values above MaxInt64), two random typed values built into it (integers beyond the widths, struct fields in random order), one non-inhabitant in every fourth type; non-trivial = more than three nodes; distinct by case line"
+	c.Explanation = "theorems on the binding model: width_guard (an integer is stored iff it fits the field's width — the ideal; the code's wrap-around is the named deviation with its witness), binding_pure / binding_pure_history for every history of explicit and inferred bindings (the memoising registry), binding_inferred_twice_was_a_panic; on the Wrap/Unwrap model (Model/GoBind.lean, tied to the implementation by `gobind.view` / `gobind.assign` / `gobind.wt` / `gobind.compatible` on every case): view_assign_partial (wrap of what was built shows exactly the normal form of what was assembled, unless an empty list went into an optional / nullable field bound to a bare slice: nilableSlotEmptyList, the known finding, with view_assign_fails_nilable_slot_empty_list; view_norm_partial / norm_loses_empty_list_in_nilable_slot the same for the normalisation), unwrap_well_typed, pointer_uint64_reads_back, optional_in_bare_nilable_is_absent, assign_view (Unwrap∘build of a wrapped value's content is the value up to GoVal.norm), view_total, view_conforms / view_normal, assign_refuses_iff (refused iff not conforming or an integer - an enum member's representation int included - does not fit), marshal_unmarshal (composition with C08 ofRepr_repr_partial), the others at full strength under t.wf and compatible only (each shown to be needed: view_assign_needs_wf, assign_refuses_iff_needs_wf, assign_refuses_iff_needs_compatible); the repaired deviations as theorems of the repaired behaviour (enum_300_into_int8_is_refused, uint_above_int64_reads_back)"
 	c.Assumptions = []string{"Go values are compared as data: nil and empty slices/maps identified, ordered-map key order canonicalised after a key-sorting codec", "custom converters are user code and not registered", "Go values that are not inhabitants of the schema (a union struct with no or several members set, Keys/Values out of step) are outside the quantifier",
-		"the shape vocabulary is the one the property names: pointers for optional and nullable (verifyCompatibility also accepts nilable non-pointer types there: known finding C19/nilable-slot-empty-list-becomes-absent), float64 (a float32 field rounds silently), Go field names = strings.Title of the schema names",
+		"the shape vocabulary is what verifyCompatibility accepts and the node code serves: pointers for optional and nullable, one pointer on a slot that is not nullable, bare nilable Go types for optional / nullable struct fields (where an empty list is lost: known finding C19/nilable-slot-empty-list-becomes-absent); accepted at bind time but not served, hence not generated: a nullable list element / map value bound to a bare slice (C19/nullable-element-bare-slice-read-panics), a nullable-only field bound to a double pointer (C19/nullable-double-pointer-build-panics); float64 only (a float32 field rounds silently); Go field names = strings.Title of the schema names",
 		"[]byte values are compared as data (nil and empty identified: the binding stores the slice it is handed); datamodel.Node values by their content",
 		"values whose representation is ambiguous for a string strategy (a stringjoin field holding the delimiter) are not generated (C08 unambig); floats are non-integral (C04's known finding on integral floats in dag-json)"}
 	recT := c19TS.TypeByName("Rec")
@@ -529,6 +531,7 @@ func newC19Bind(t *core.SType, g *core.GTy) (b *c19Bind, err error) {
 	if g == nil {
 		eng := core.NewUserBindEngine(ts, t.Tokens())
 		eng.AllIntKinds = true
+		eng.AllSlotShapes = true
 		rt = eng.GoType(st)
 		if g, err = core.GTyOf(rt, t, false); err != nil {
 			return nil, err
@@ -537,6 +540,7 @@ func newC19Bind(t *core.SType, g *core.GTy) (b *c19Bind, err error) {
 			return nil, fmt.Errorf("go type %s does not rebuild from its tokens %s", rt, g.Tokens())
 		}
 	} else {
+		core.AnnotateGTy(g, t)
 		rt = g.Reflect()
 	}
 	defer func() {
@@ -575,131 +579,194 @@ func (p *c19Pending) flush(c *core.Ctx) error {
 	return nil
 }
 
-// c19HasBigUnsigned: the typed value holds an integer above MaxInt64 in a slot bound to Go kind `only` ("" = any unsigned
-// kind; "kinded" = any unsigned kind, directly as the member of a kinded union).
-func c19HasBigUnsigned(g *core.GTy, t *core.SType, nul bool, v core.Val, only string) bool {
-	return c19BigUnsigned(g, t, nul, v, only, false)
+// c19Node is one value of a canonical typed value together with the Go type it is bound to (pointers stripped).
+type c19Node struct {
+	G           *core.GTy
+	T           *core.SType
+	V           core.Val
+	UnderKinded bool   // the value is directly the member of a kinded union
+	BareSlot    string // "optbare" / "nulbare": the value sits in an optional / nullable struct field bound to a bare nilable Go type
+	PlainPtr    bool   // the value sits behind ONE pointer in a slot that is not nullable (the node then holds the pointer)
 }
 
-func c19BigUnsigned(g *core.GTy, t *core.SType, nul bool, v core.Val, only string, underKinded bool) bool {
-	if nul {
-		if v.K == 'n' {
-			return false
-		}
-		g = g.Elem
+// c19Nodes visits every present value of the canonical typed value v bound to Go type g (written against the token forms only).
+func c19Nodes(g *core.GTy, t *core.SType, nul bool, v core.Val, underKinded bool, bareSlot string, visit func(c19Node)) {
+	if v.K == 'n' || v.K == 'a' {
+		return
 	}
+	plainPtr := false
+	if g.K == "ptr" {
+		g = g.Elem
+		plainPtr = !nul
+	}
+	visit(c19Node{G: g, T: t, V: v, UnderKinded: underKinded, BareSlot: bareSlot, PlainPtr: plainPtr})
 	switch t.K {
-	case "int":
-		_, inInt64 := v.Int64()
-		big := v.K == 'i' && !inInt64 && !v.Neg
-		switch only {
-		case "":
-			return big
-		case "kinded":
-			return big && underKinded
-		}
-		return big && g.K == only
 	case "list":
 		for _, x := range v.L {
-			if c19BigUnsigned(g.Elem, t.Elem, t.Nullable, x, only, false) {
-				return true
-			}
+			c19Nodes(g.Elem, t.Elem, t.Nullable, x, false, "", visit)
 		}
 	case "map":
 		for _, e := range v.M {
-			if c19BigUnsigned(g.Elem, t.Elem, t.Nullable, e.V, only, false) {
-				return true
-			}
+			c19Nodes(g.Elem, t.Elem, t.Nullable, e.V, false, "", visit)
 		}
 	case "struct":
 		for i, f := range t.Fields {
-			if i >= len(v.M) || v.M[i].V.K == 'a' {
+			if i >= len(v.M) || i >= len(g.Fields) {
 				continue
 			}
 			fg := g.Fields[i].T
-			if f.Opt {
-				fg = fg.Elem
-			}
-			if c19BigUnsigned(fg, f.T, f.Nullable, v.M[i].V, only, false) {
-				return true
+			slot := core.FieldSlot(fg, f.Opt, f.Nullable)
+			switch slot {
+			case "optptr":
+				c19Nodes(fg.Elem, f.T, f.Nullable, v.M[i].V, false, "", visit)
+			case "optbare", "nulbare":
+				c19Nodes(fg, f.T, false, v.M[i].V, false, slot, visit)
+			default:
+				c19Nodes(fg, f.T, f.Nullable, v.M[i].V, false, "", visit)
 			}
 		}
 	case "union":
 		for i, m := range t.Members {
-			if len(v.M) == 1 && string(v.M[0].K) == m.T.Name {
-				return c19BigUnsigned(g.Fields[i].T.Elem, m.T, false, v.M[0].V, only, t.URepr == "kinded")
+			if len(v.M) == 1 && string(v.M[0].K) == m.T.Name && i < len(g.Fields) {
+				c19Nodes(g.Fields[i].T.Elem, m.T, false, v.M[0].V, t.URepr == "kinded", "", visit)
 			}
 		}
 	}
-	return false
+}
+
+// c19HasBigUnsigned: the typed value holds an integer above MaxInt64 in a slot bound to Go kind `only` ("" = any unsigned
+// kind; "kinded" = any unsigned kind, directly as the member of a kinded union).
+func c19HasBigUnsigned(g *core.GTy, t *core.SType, nul bool, v core.Val, only string) bool {
+	found := false
+	c19Nodes(g, t, false, v, false, "", func(n c19Node) {
+		if n.T.K != "int" {
+			return
+		}
+		_, inInt64 := n.V.Int64()
+		big := n.V.K == 'i' && !inInt64 && !n.V.Neg
+		switch only {
+		case "":
+			found = found || big
+		case "kinded":
+			found = found || (big && n.UnderKinded)
+		default:
+			found = found || (big && n.G.K == only)
+		}
+	})
+	return found
+}
+
+// c19EmptyInBareSlot: an EMPTY list (bytes) sits in an optional / nullable struct field bound to a bare Go slice ([]byte):
+// known finding C19/nilable-slot-empty-list-becomes-absent (and its dag-cbor variant for bytes).
+func c19EmptyInBareSlot(g *core.GTy, t *core.SType, v core.Val) (list, bytes bool) {
+	c19Nodes(g, t, false, v, false, "", func(n c19Node) {
+		if n.BareSlot == "" {
+			return
+		}
+		if n.T.K == "list" && n.G.K == "slice" && len(n.V.L) == 0 {
+			list = true
+		}
+		if n.T.K == "bytes" && n.G.K == "bytes" && len(n.V.S) == 0 {
+			bytes = true
+		}
+	})
+	return
+}
+
+// c19ReprUnsafeBehindPlainPtr: behind ONE pointer in a slot that is not nullable sits a value whose REPRESENTATION node works
+// on the reflect value without dereferencing it (repr.go never calls nonPtrVal): an int-represented enum (AsInt), a kinded or
+// stringprefix union (unionMember), a tuple or listpairs struct (their iterators), a map-represented struct with an optional
+// field (lengthMinusAbsents).  Known finding C19/plain-pointer-slot-representation-not-dereferenced.
+func c19ReprUnsafeBehindPlainPtr(g *core.GTy, t *core.SType, v core.Val) bool {
+	found := false
+	c19Nodes(g, t, false, v, false, "", func(n c19Node) {
+		if !n.PlainPtr {
+			return
+		}
+		switch n.T.K {
+		case "enum":
+			found = found || n.T.ERepr == "int"
+		case "union":
+			found = found || n.T.URepr == "kinded" || n.T.URepr == "prefix"
+		case "struct":
+			switch n.T.SRepr {
+			case "tuple", "listpairs":
+				found = true
+			case "map":
+				for _, f := range n.T.Fields {
+					found = found || f.Opt
+				}
+			}
+		}
+	})
+	return found
 }
 
 // c19IntsFit: every integer of the canonical typed value fits the Go kind it is bound to (the oracle for refusals; written
 // against the token forms only).
 func c19IntsFit(g *core.GTy, t *core.SType, nul bool, v core.Val, skipEnums bool) bool {
-	if nul {
-		if v.K == 'n' {
-			return true
+	fits := true
+	c19Nodes(g, t, false, v, false, "", func(n c19Node) {
+		switch n.T.K {
+		case "int":
+			bits, signed, _ := core.IntBits(n.G.K)
+			if signed {
+				i, ok := n.V.Int64()
+				fits = fits && ok && (bits == 64 || (i >= -(1<<(bits-1)) && i < 1<<(bits-1)))
+			} else {
+				fits = fits && !n.V.Neg && (bits == 64 || n.V.Mag < 1<<bits)
+			}
+		case "enum":
+			if skipEnums || n.G.K == "string" {
+				return
+			}
+			bits, signed, _ := core.IntBits(n.G.K)
+			for _, e := range n.T.Enum {
+				if e.Name == string(n.V.S) {
+					if signed {
+						fits = fits && (bits == 64 || (e.RInt >= -(1<<(bits-1)) && e.RInt < 1<<(bits-1)))
+					} else {
+						fits = fits && e.RInt >= 0 && (bits == 64 || e.RInt < 1<<bits)
+					}
+					return
+				}
+			}
+		}
+	})
+	return fits
+}
+
+// c19SlotShapes lists the slot shapes of the binding (distribution).
+func c19SlotShapes(g *core.GTy, t *core.SType, nul bool, out map[string]bool) {
+	if g.K == "ptr" {
+		if !nul {
+			out["plain-slot-bound-to-pointer:"+t.K] = true
 		}
 		g = g.Elem
 	}
-	if skipEnums && t.K == "enum" {
-		return true
-	}
 	switch t.K {
-	case "int":
-		bits, signed, _ := core.IntBits(g.K)
-		if signed {
-			i, ok := v.Int64()
-			return ok && (bits == 64 || (i >= -(1<<(bits-1)) && i < 1<<(bits-1)))
-		}
-		return !v.Neg && (bits == 64 || v.Mag < 1<<bits)
-	case "enum":
-		if g.K == "string" {
-			return true
-		}
-		bits, signed, _ := core.IntBits(g.K)
-		for _, e := range t.Enum {
-			if e.Name == string(v.S) {
-				if signed {
-					return bits == 64 || (e.RInt >= -(1<<(bits-1)) && e.RInt < 1<<(bits-1))
-				}
-				return e.RInt >= 0 && (bits == 64 || e.RInt < 1<<bits)
-			}
-		}
-	case "list":
-		for _, x := range v.L {
-			if !c19IntsFit(g.Elem, t.Elem, t.Nullable, x, skipEnums) {
-				return false
-			}
-		}
-	case "map":
-		for _, e := range v.M {
-			if !c19IntsFit(g.Elem, t.Elem, t.Nullable, e.V, skipEnums) {
-				return false
-			}
-		}
+	case "list", "map":
+		c19SlotShapes(g.Elem, t.Elem, t.Nullable, out)
 	case "struct":
 		for i, f := range t.Fields {
-			if i >= len(v.M) || v.M[i].V.K == 'a' {
-				continue
-			}
 			fg := g.Fields[i].T
-			if f.Opt {
-				fg = fg.Elem
-			}
-			if !c19IntsFit(fg, f.T, f.Nullable, v.M[i].V, skipEnums) {
-				return false
+			slot := core.FieldSlot(fg, f.Opt, f.Nullable)
+			switch slot {
+			case "optptr":
+				out["field:optional-pointer"] = true
+				c19SlotShapes(fg.Elem, f.T, f.Nullable, out)
+			case "optbare", "nulbare":
+				out["field:"+slot+":"+fg.K] = true
+				c19SlotShapes(fg, f.T, false, out)
+			default:
+				c19SlotShapes(fg, f.T, f.Nullable, out)
 			}
 		}
 	case "union":
 		for i, m := range t.Members {
-			if len(v.M) == 1 && string(v.M[0].K) == m.T.Name {
-				return c19IntsFit(g.Fields[i].T.Elem, m.T, false, v.M[0].V, skipEnums)
-			}
+			c19SlotShapes(g.Fields[i].T.Elem, m.T, false, out)
 		}
 	}
-	return true
 }
 
 // c19ShuffleStructs: the type-level builder takes struct fields in any order.
@@ -791,6 +858,8 @@ func c19CheckGoValue(c *core.Ctx, b *c19Bind, pv reflect.Value, r *core.Rand, p 
 	c.Count(caseID, want.Size() > 3)
 	bigAny := c19HasBigUnsigned(b.G, b.T, false, want, "")
 	bigKinded := c19HasBigUnsigned(b.G, b.T, false, want, "kinded")
+	emptyListBare, emptyBytesBare := c19EmptyInBareSlot(b.G, b.T, want)
+	reprPtr := c19ReprUnsafeBehindPlainPtr(b.G, b.T, want)
 	// (O) wrap_faithful: the node API shows exactly the reflection walk
 	var node datamodel.Node
 	got := "wrap-panic"
@@ -805,6 +874,9 @@ func c19CheckGoValue(c *core.Ctx, b *c19Bind, pv reflect.Value, r *core.Rand, p 
 	}
 	if got != want.Term() {
 		c.Fail("C19/wrap-not-faithful", core.Replay{Kind: "oracle", Case: caseID, Impl: got, Expected: want.Term(), Detail: "Wrap(value) read through the node API vs. a reflection walk of the Go value"})
+	} else if prob := consistency(node, ""); prob != "" {
+		// iteration, every lookup form and Length tell the same story
+		c.Fail("C19/wrapped-node-inconsistent", core.Replay{Kind: "oracle", Case: caseID, Impl: prob, Expected: "iterators, LookupByString / LookupByIndex / LookupByNode / LookupBySegment and Length agree", Detail: "the node API of Wrap(value) disagrees with itself"})
 	}
 	// the value is a well-typed inhabitant for the model as well (the hypothesis of the theorems)
 	p.add("gobind.wt "+b.Head+" VAL "+goTokens, "true", caseID, "C19/corr-wt")
@@ -829,6 +901,14 @@ func c19CheckGoValue(c *core.Ctx, b *c19Bind, pv reflect.Value, r *core.Rand, p 
 		c.Fail("C19/unwrap-differs", core.Replay{Kind: "oracle", Case: caseID, Impl: fmt.Sprintf("%#v", built.Interface()), Expected: fmt.Sprintf("%#v", norm.Interface()), Detail: "reflect.DeepEqual(Unwrap(build(content)), normalised value) is false although the token forms agree"})
 	}
 	p.add("gobind.assign "+b.Head+" VAL "+want.Term(), builtTokens, caseID, "C19/corr-assign")
+	// (O) the normalisation does not change the data held: the normalised value holds what the value holds
+	if nw, err := core.WalkGo(norm, b.G, b.T, false); err != nil || nw.Term() != want.Term() {
+		sig := "C19/normalisation-changes-data"
+		if emptyListBare {
+			sig = "C19/nilable-slot-empty-list-becomes-absent"
+		}
+		c.Fail(sig, core.Replay{Kind: "oracle", Case: caseID, Impl: fmt.Sprint(nw.Term(), err), Expected: want.Term(), Detail: "the data held by Unwrap(build(content of the value)) vs. the data held by the value"})
+	}
 	// (O) marshal_unmarshal, per codec, into a fresh value
 	wantSorted := core.GoValTokens(norm, b.G, true)
 	for _, cd := range c19Codecs {
@@ -859,6 +939,10 @@ func c19CheckGoValue(c *core.Ctx, b *c19Bind, pv reflect.Value, r *core.Rand, p 
 				sig = "C19/dagjson-unsigned-above-int64"
 			case bigKinded:
 				sig = "C19/kinded-union-unsigned-above-int64-marshal-fails"
+			case reprPtr && sig == "C19/marshal-roundtrip-fails":
+				sig = "C19/plain-pointer-slot-representation-not-dereferenced"
+			case emptyBytesBare && cd.name == "dag-cbor" && sig == "C19/marshal-roundtrip-differs":
+				sig = "C19/nilable-slot-empty-bytes-becomes-absent-dagcbor"
 			}
 			c.Fail(sig, rp)
 		}
@@ -893,7 +977,11 @@ func c19CheckTypedValue(c *core.Ctx, b *c19Bind, tl core.Val, r *core.Rand, p *c
 		got := "wrap-panic"
 		_, panicked, _ := core.Catch(func() error { got = readView(bindnode.Wrap(ptr.Interface(), b.ST)); return nil })
 		if panicked || got != tl.Term() {
-			c.Fail("C19/wrap-of-built-differs", core.Replay{Kind: "oracle", Case: caseID, Impl: got, Expected: tl.Term(), Detail: "Wrap(Unwrap(build(typed value))) read through the node API"})
+			sig := "C19/wrap-of-built-differs"
+			if l, _ := c19EmptyInBareSlot(b.G, b.T, tl); l {
+				sig = "C19/nilable-slot-empty-list-becomes-absent"
+			}
+			c.Fail(sig, core.Replay{Kind: "oracle", Case: caseID, Impl: got, Expected: tl.Term(), Detail: "Wrap(Unwrap(build(typed value))) read through the node API"})
 		}
 		c.Dist("build:accepted")
 	default:
@@ -980,6 +1068,11 @@ func c19BindSection(c *core.Ctx) error {
 		for k := range kinds {
 			c.Dist("gokind:" + k)
 		}
+		shapes := map[string]bool{}
+		c19SlotShapes(b.G, b.T, false, shapes)
+		for k := range shapes {
+			c.Dist("slotshape:" + k)
+		}
 		strat := map[string]bool{}
 		t.Strategies(strat)
 		for k := range strat {
@@ -1035,6 +1128,17 @@ var c19Directed = []string{
 	"c19.build struct n:45 u8 ) SCHEMA struct map f:45:45 enum int e:41:41:256 e:42:42:255 e:43:43:-1 ) ) VAL { s45 s43 }",
 	"c19.build struct n:45 ptr i16 ) SCHEMA struct listpairs fo:45:45 enum int e:41:41:32768 e:42:42:-32768 ) ) VAL { s45 s41 }",
 	"c19.bind struct n:45 u8 ) SCHEMA struct map f:45:45 enum int e:41:41:256 e:42:42:255 e:43:43:-1 ) ) VAL ( i255 )",
+	// the slot shapes beyond "pointers for optional and nullable": a required, non-nullable slot bound to ONE pointer
+	// (struct field, list elements, map values) holding unsigned values around 2^63 …
+	"c19.bind struct n:636f756e74 ptr u64 n:6e ptr uint n:6c slice ptr u64 n:6d omap ptr u64 ) SCHEMA struct map f:636f756e74:636f756e74 int f:6e:6e int f:6c:6c list int f:6d:6d map int ) VAL ( & i18446744073709551615 & i9223372036854775808 [ & i0 & i9223372036854775807 & i9223372036854775808 ] m k[ s6b ] v{ s6b & i18446744073709551615 } )",
+	"c19.build struct n:636f756e74 ptr u64 n:6c slice ptr u64 ) SCHEMA struct map f:636f756e74:636f756e74 int f:6c:6c list int ) VAL { s636f756e74 i9223372036854775808 s6c [ i18446744073709551615 i1 ] }",
+	// … and optional / nullable struct fields bound to bare nilable Go types (slice, []byte, datamodel.Link, datamodel.Node),
+	// absent, null and present
+	"c19.bind struct n:74616773 slice string n:626c6f62 bytes n:726566 link:iface n:616e79 node n:6e slice i8 n:78 i64 ) SCHEMA struct map fo:74616773:74616773 list str fo:626c6f62:626c6f62 bytes fo:726566:726566 link fo:616e79:616e79 any fn:6e:6e list int f:78:78 int ) VAL ( nils nils nili nili nils i1 )",
+	"c19.bind struct n:74616773 slice string n:626c6f62 bytes n:726566 link:iface n:616e79 node n:6e slice i8 n:78 i64 ) SCHEMA struct map fo:74616773:74616773 list str fo:626c6f62:626c6f62 bytes fo:726566:726566 link fo:616e79:616e79 any fn:6e:6e list int f:78:78 int ) VAL ( [ s61 s ] b00ff l0155a0e4020106 N { s6b [ i1 ] } [ i-128 i127 ] i1 )",
+	"c19.bind struct n:78 i64 n:74616773 slice string ) SCHEMA struct tuple f:78:78 int fo:74616773:74616773 list str ) VAL ( i1 nils )",
+	"c19.build struct n:74616773 slice string n:626c6f62 bytes n:6e slice i8 ) SCHEMA struct listpairs fo:74616773:74616773 list str fo:626c6f62:626c6f62 bytes fn:6e:6e list int ) VAL { s74616773 a s626c6f62 b s6e n }",
+	"c19.build struct n:74616773 slice string n:6e slice i8 ) SCHEMA struct map fo:74616773:74616773 list str fn:6e:6e list int ) VAL { s74616773 [ s78 ] s6e [ i300 ] }",
 }
 
 // c19RunCase executes one case line of this section (its correspondence lines are left pending in p).
@@ -1101,6 +1205,8 @@ func c19BindReplay(c *core.Ctx, line string) error {
 type c19WOptSlice struct{ L []string }
 type c19WU64 struct{ X uint64 }
 type c19WKinded struct{ Int *uint64 }
+type c19WNulElem struct{ L [][]string }
+type c19WNulPP struct{ X **int64 }
 
 var c19WitnessTS = schema.MustTypeSystem(
 	schema.SpawnInt("Int"), schema.SpawnString("String"),
@@ -1108,6 +1214,9 @@ var c19WitnessTS = schema.MustTypeSystem(
 	schema.SpawnStruct("WUint", []schema.StructField{schema.SpawnStructField("X", "Int", false, false)}, schema.SpawnStructRepresentationMap(nil)),
 	schema.SpawnStruct("WOptSlice", []schema.StructField{schema.SpawnStructField("L", "LS", true, false)}, schema.SpawnStructRepresentationMap(nil)),
 	schema.SpawnUnion("WKinded", []schema.TypeName{"Int"}, schema.SpawnUnionRepresentationKinded(map[datamodel.Kind]schema.TypeName{datamodel.Kind_Int: "Int"})),
+	schema.SpawnList("LnLS", "LS", true),
+	schema.SpawnStruct("WNulElem", []schema.StructField{schema.SpawnStructField("L", "LnLS", false, false)}, schema.SpawnStructRepresentationMap(nil)),
+	schema.SpawnStruct("WNulPP", []schema.StructField{schema.SpawnStructField("X", "Int", false, true)}, schema.SpawnStructRepresentationMap(nil)),
 	schema.SpawnStruct("WNulSlice", []schema.StructField{schema.SpawnStructField("L", "LS", false, true)}, schema.SpawnStructRepresentationMap(nil)),
 )
 
@@ -1124,6 +1233,19 @@ func c19BindWitnesses(c *core.Ctx) {
 		v := c19WKinded{Int: &x}
 		_, err := ipld.Marshal(dagcbor.Encode, &v, c19WitnessTS.TypeByName("WKinded"))
 		c.KnownWitness("C19/kinded-union-unsigned-above-int64-marshal-fails", err != nil, "ipld.Marshal(dagcbor.Encode, &struct{Int *uint64}{&(1<<63)}, kinded union {Int int}) fails: "+fmt.Sprint(err))
+	}
+	// nullable list elements bound to a bare slice: accepted at bind time, reading a non-nil element panics
+	{
+		v := c19WNulElem{L: [][]string{nil, {"a"}}}
+		got := "bind-panic"
+		core.Catch(func() error { got = readView(bindnode.Wrap(&v, c19WitnessTS.TypeByName("WNulElem"))); return nil })
+		c.KnownWitness("C19/nullable-element-bare-slice-read-panics", got != "{ s4c [ n [ s61 ] ] }", "Wrap(&struct{L [][]string}{{nil, {\"a\"}}}) with L [nullable [String]] reads as "+got)
+	}
+	// a nullable (not optional) field bound to a double pointer: accepted at bind time, the assembler panics
+	{
+		nb := bindnode.Prototype((*c19WNulPP)(nil), c19WitnessTS.TypeByName("WNulPP")).NewBuilder()
+		err, panicked, pv := core.Catch(func() error { return core.Assemble(nb, core.Map(core.KV{K: []byte("X"), V: core.Int(5)}), nil) })
+		c.KnownWitness("C19/nullable-double-pointer-build-panics", panicked, fmt.Sprint("assembling {X: 5} into struct{X **int64} with X nullable Int: ", err, pv))
 	}
 	// optional / nullable field bound to a plain (nilable) slice: an empty list becomes absent / null
 	{
